@@ -144,6 +144,11 @@ package otto
 //@   at_call strconv.ParseFloat : called(ok) && ok && arg1 == 64
 //@   at_call strconv.ParseInt : called(ok) && ok && arg1 == 0 && arg2 == 64
 //@   ensures called(ok) && !ok ==> isNaN(result)
+//@   calls strconv.ParseFloat(_, _) as pf whenret false
+//@   calls errors.Is(_, _) as rng whenret false
+//@   at_call errors.Is : called(pf) && arg0 == pf_1
+//@   ensures called(pf) && pf_1 == nil ==> sameFloat(result, pf_0)
+//@   ensures called(pf) && pf_1 != nil && called(rng) && rng ==> sameFloat(result, pf_0)
 
 //@ func (Value).number
 //@   props C05 C08 C09 C15
@@ -274,6 +279,7 @@ package otto
 
 //@ func (Value).bool
 //@   props C05 C15
+//@   safety C02 C05 C15
 //@   nothrow
 //@   pure
 //@   requires jsValue(v)
@@ -3802,6 +3808,7 @@ package otto
 //@   requires holder != nil && ctx.call.runtime != nil
 //@   calls (*object).get(holder, key) as g
 //@   calls (*object).get(_, "toJSON") as tj whenret false
+//@   at_call (Value).call : len(arg3) == 1 || len(arg3) == 2
 //@   at_call (Value).call : len(arg3) == 1 ==> called(g) && called(tj) && arg0 == tj && (key != "toJSON" ==> arg2 == g) && is(arg3[0], string) && arg3[0].(string) == key
 //@   at_call (Value).call : len(arg3) == 2 ==> called(g) && (key != "toJSON" && g.kind == valueObject ==> called(tj)) && arg2.kind == valueObject && is(arg2.value, *object) && arg2.value.(*object) == holder && is(arg3[0], string) && arg3[0].(string) == key
 
@@ -3827,3 +3834,33 @@ package otto
 //@   calls (*runtime).convertCallParameter(_, _, _) as c
 //@   at_call (*object).get : arg0 == *o && arg1 == k
 //@   ensures called(c) && (c_1 != nil ==> !result && *captured_err != nil) && (c_1 == nil ==> result)
+
+// A string key of a bridged Go map is parsed with exactly the bit size of the key type, so an
+// out-of-range key is an error (never a wrapped key).  reflect.Kind: Int=2 Int8=3 Int16=4
+// Int32=5 Int64=6 Uint=7 Uint8=8 Uint16=9 Uint32=10 Uint64=11 Float32=13 Float64=14.
+//@ func stringToReflectValue
+//@   props C16
+//@   nosafety
+//@   at_call strconv.ParseInt : arg1 == 0 && (kind == 2 ==> arg2 == 0) && (kind == 3 ==> arg2 == 8) && (kind == 4 ==> arg2 == 16) && (kind == 5 ==> arg2 == 32) && (kind == 6 ==> arg2 == 64) && kind >= 2 && kind <= 6
+//@   at_call strconv.ParseUint : arg1 == 0 && (kind == 7 ==> arg2 == 0) && (kind == 8 ==> arg2 == 8) && (kind == 9 ==> arg2 == 16) && (kind == 10 ==> arg2 == 32) && (kind == 11 ==> arg2 == 64) && kind >= 7 && kind <= 11
+//@   at_call strconv.ParseFloat : (kind == 13 ==> arg1 == 32) && (kind == 14 ==> arg1 == 64) && (kind == 13 || kind == 14)
+
+// 12.10 with: the object environment is in force for the body only - the previous lexical
+// environment is back on EVERY exit, a throw or a host panic in the body included.
+//@ func (*runtime).cmplEvaluateNodeWithStatement
+//@   props C18
+//@   nosafety
+//@   requires rt != nil && rt.otto != nil && rt.scope != nil && node != nil
+//@   at_call (*runtime).cmplEvaluateNodeStatement : arg0 == rt && rt.scope.lexical == lexical
+//@   at_call (*runtime).newObjectStash : arg2 == outer
+//@   calls (*runtime).cmplEvaluateNodeStatement(_, _) as b
+//@   unwind_ensures called(b) ==> rt.scope.lexical == outer
+//@   ensures called(b) && rt.scope.lexical == outer
+
+// 15.3.4.3/4/5 apply, call, bind never index past their argument list.
+//@ func builtinFunctionCall
+//@   props C02
+//@   safety C02
+//@   abstract_callee (*object).call
+//@   requires wfCall(call) && argsOK(call.ArgumentList) && call.runtime != nil
+//@   stable call.ArgumentList
